@@ -296,9 +296,11 @@ class TraitSet(set):
             The other iterables.
         """
 
-        old_set = self.copy()
-        super().difference_update(*args)
-        removed = old_set.difference(self)
+        # Compute the result before mutating: set.difference_update works
+        # through its arguments one at a time, so a bad later argument would
+        # otherwise leave the set partially updated with nobody notified.
+        removed = self.difference(self.difference(*args))
+        super().difference_update(removed)
 
         if len(removed) > 0:
             self.notify(removed, set())
